@@ -1012,7 +1012,8 @@ pub fn witness_d15() -> Result<(), String> {
 }
 
 /// the D14 archive: one file whose `n` offsets all point at a block of another file
-pub fn d14_archive(n: usize) -> Result<Vec<u8>, String> {
+/// `kind`: which foreign block the offsets point at: 0 = FileContent, 1 = FileStart, 2 = EndOfFile
+pub fn d14_archive_kind(n: usize, kind: u8) -> Result<Vec<u8>, String> {
     let (hdr, _) = header_of(0)?;
     let mut body = Vec::new();
     // FileStart id 0 "a" @0 (18 bytes), FileStart id 1 "b" @18, FileContent id 1 len 0 @36, EoF id1, EoF id 0, EoA
@@ -1020,11 +1021,12 @@ pub fn d14_archive(n: usize) -> Result<Vec<u8>, String> {
     body.extend(le64(0));
     body.extend(le64(1));
     body.push(b'a');
+    let start1 = body.len() as u64;
     body.push(0u8);
     body.extend(le64(1));
     body.extend(le64(1));
     body.push(b'b');
-    let foreign = body.len() as u64;
+    let content1 = body.len() as u64;
     body.push(1u8);
     body.extend(le64(1));
     body.extend(le64(0));
@@ -1037,7 +1039,11 @@ pub fn d14_archive(n: usize) -> Result<Vec<u8>, String> {
     body.extend(le64(0));
     body.extend_from_slice(&sha256(b""));
     body.push(0xfe);
-    let _ = eof1;
+    let foreign = match kind {
+        1 => start1,
+        2 => eof1,
+        _ => content1,
+    };
     let mut footer = le64(1);
     footer.extend(le64(1));
     footer.push(b'a');
@@ -1055,11 +1061,16 @@ pub fn d14_archive(n: usize) -> Result<Vec<u8>, String> {
     Ok(a)
 }
 
+pub fn d14_archive(n: usize) -> Result<Vec<u8>, String> {
+    d14_archive_kind(n, 0)
+}
+
 /// hidden sub-command `c08-wit D14`: runs in a child because the defect is a stack overflow
 pub fn wit_child(name: &str) {
     let r: Result<(), String> = match name {
-        "D14" => (|| {
-            let a = d14_archive(300_000)?;
+        "D14" | "D14-1" | "D14-2" => (|| {
+            let kind = match name { "D14-1" => 1, "D14-2" => 2, _ => 0 };
+            let a = d14_archive_kind(300_000, kind)?;
             let r = with_watchdog(move || {
                 let (ex, peak) = measure(|| exercise(&a, &[], false));
                 (ex.panics.first().cloned(), ex.opened, ex.errs, peak, alloc_ceiling(&a))
@@ -1114,16 +1125,18 @@ pub fn wit_child(name: &str) {
 
 pub fn witness_d14() -> Result<(), String> {
     let exe = std::env::current_exe().map_err(|e| e.to_string())?;
-    let o = Command::new(exe).args(["c08-wit", "D14"]).stderr(Stdio::null()).output().map_err(|e| e.to_string())?;
-    let so = String::from_utf8_lossy(&o.stdout).trim().to_string();
-    if !o.status.success() {
-        return Err(format!("D14: reading a file with 300000 offsets pointing at foreign blocks kills the process ({}): stack overflow", o.status));
+    // the offsets point at a foreign FileContent, FileStart and EndOfFile block in turn
+    for (w, what) in [("D14", "FileContent"), ("D14-1", "FileStart"), ("D14-2", "EndOfFile")] {
+        let o = Command::new(&exe).args(["c08-wit", w]).stderr(Stdio::null()).output().map_err(|e| e.to_string())?;
+        let so = String::from_utf8_lossy(&o.stdout).trim().to_string();
+        if !o.status.success() {
+            return Err(format!("D14: reading a file with 300000 offsets pointing at a foreign {what} block kills the process ({}): stack overflow", o.status));
+        }
+        if so != "ok" {
+            return Err(format!("{so} (foreign {what} block)"));
+        }
     }
-    if so == "ok" {
-        Ok(())
-    } else {
-        Err(so)
-    }
+    Ok(())
 }
 
 /// D12b: crafted SizesInfo of the compression layer
